@@ -177,6 +177,13 @@ func getChildQueuesPreemptableResource(queue *Queue, parentPreemptableResource *
 		var usedResource *resources.Resource
 		if !guaranteed.IsEmpty() {
 			usedResource = resources.SubOnlyExisting(guaranteed, allocated)
+			// resource types in use without a guaranteed quantity are preemptable in full, as for a queue without
+			// any guaranteed resources
+			for k, v := range allocated.Resources {
+				if _, ok := guaranteed.Resources[k]; !ok {
+					usedResource.Resources[k] = v
+				}
+			}
 		} else {
 			usedResource = allocated
 		}
